@@ -9,6 +9,13 @@ from pmverif.core import Program
 from pmverif.norm import Resolver, assigned_names, shape_of
 prog = Program()
 out = {}
+def _ctx(key):
+    from pmverif.gates import stmt_contexts, view
+    try:
+        return stmt_contexts(view(prog, key))
+    except Exception as e:  # no CFG for this function: the rule has no reference and skips it
+        print("no ctx", key, e)
+        return None
 for fn in prog.all_funcs():
     from pmverif.core import walk_own
     out[fn.key] = {
@@ -18,6 +25,7 @@ for fn in prog.all_funcs():
         "shape": shape_of(fn.node),
         "locals": sorted((assigned_names([fn.node]) | set(fn.params())) - {fn.name}),
         "defs": {k: " ".join(ast.unparse(e).split()) for k, e in sorted(Resolver(fn.node).defs.items())},
+        "ctx": _ctx(fn.key),
         "returns": sorted(" ".join(ast.unparse(r.value).split()) if r.value is not None else "None" for r in walk_own(fn.node) if isinstance(r, ast.Return)),
     }
 # module-level constants (UPPER_CASE names and compiled patterns) of every module
